@@ -120,6 +120,12 @@ CHECKS = {
         text="Generated syntactic modules without builtin calls and all corpus files that parse: the rebuilt text must lex and parse without error, its tree must equal the original up to locations and literal spelling/suffix, and a second rebuild must be byte-identical.",
         note="Two annotation forms of the rebuilder (`Name#?`, `struct#Name`) are a listed finding and are stripped by a keyed, string-aware normalisation so that everything else is still compared.",
         design="5 C20"),
+    "C18": dict(
+        category="exploration",
+        technique="runtime monitor: the real penne binary driven with recording backends; a contract model predicts exit status, written files, shown output and backend choice",
+        text="Valid/invalid single- and multi-file inputs x {build, implicit build, run, emit} x option subsets (silent, verbose, color, arrows, wasm, out-dir, backend flag / environment / config / the other subcommand's variable, backend args, failing backend): exit 0 iff compilation and the backend succeeded; --out-dir leaves a .pn.ll per module equal to the library's module IR and accepted by llvm-as; the backend actually invoked follows flag > env > config > default (observed through recording scripts that also capture argv and the piped IR); diagnostics carry their [Exxx], no ESC under --color=never, ASCII arrows under --arrows=ascii, nothing under --silent; `run` through the real lli passes program output through and shows `Output: N`.",
+        note="`clang` and `lli` on PATH are recording scripts so the default backend is observable. The triple of --wasm modules is outside the model.",
+        design="5 C18"),
 }
 
 
@@ -139,7 +145,7 @@ def main():
             "technique": c["technique"],
         })
     props = [json.loads(l)["id"] for l in open(os.path.join(VERIF, "properties.jsonl"))]
-    na = [{"property_id": p, "reason": "check not built yet in this round (planned: see DESIGN.md section 5)"}
+    na = [{"property_id": p, "reason": "check not built yet (see DESIGN.md section 5)"}
           for p in props if p not in CHECKS]
     manifest = {
         "version": 1,
